@@ -117,6 +117,10 @@ def misc_law(fn, ds, rt):
     return None
 
 
+def impl_is_nullable(d):
+    return d.startswith("n")
+
+
 def run(ctx: common.Ctx):
     ctx.extra["rule"] = (
         "exhaustive tables: result_type on 24x24 dtype pairs (dtype objects and lazy arrays), 24^3 "
@@ -135,6 +139,12 @@ def run(ctx: common.Ctx):
     single_out = [tables.result_type_row((d,)) for d in names]
     scal_jobs = [(d, k, first) for d in names for k in PY_SCALARS for first in (False, True)]
     scal_out = tables.pmap(tables.promote_scalar_row, scal_jobs, strict=True)
+    cores = [d for d in names if not impl_is_nullable(d)]
+    np_jobs = [(d, e, form, first, via) for d in names for e in cores for form in ("np-scalar", "np-0d", "np-1d")
+               for first in (False, True) for via in ("promote",)]
+    np_jobs += [(d, e, "np-scalar", first, via) for d in names for e in cores for first in (False, True)
+                for via in ("add", "multiply", "equal")]
+    np_out = tables.pmap(tables.promote_np_row, np_jobs, strict=True, chunk=256)
     model = common.model([f"rt {a} {b}" for a, b in pairs] + [f"rt {a} {b} {c}" for a, b, c in triples]
                          + [f"scalar {d} {k}" for d, k, _ in scal_jobs] + [f"rt {d}" for d in names])
     m_pair = model[:len(pairs)]
@@ -210,6 +220,21 @@ def run(ctx: common.Ctx):
             ctx.violation(f"promote/{d},{k}/{kind}",
                           f"promote(array {d}, Python {k[1:]} scalar){' reflected' if first else ''} -> {o}, expected {m}",
                           {"dtype": d, "scalar": k, "scalar_first": first, "observed": o, "expected": m})
+
+    # NumPy scalars and arrays are strongly typed operands: promote(array d, numpy e) = result_type(d, e)
+    m_rt = {p: m for p, m in zip(pairs, m_pair)}
+    for (d, e, form, first, via), o in zip(np_jobs, np_out):
+        ctx.case(("promote-numpy", d, e, form, first, via), True)
+        ctx.count("promote:numpy-operand")
+        m = m_rt[(d, e)]
+        if via == "equal" and m != "TypeError":
+            m = "nbool" if d.startswith("n") else "bool"
+        if norm(o) != m:
+            if via != "promote" and (norm(rt_table[(d, e)]) != m_rt[(d, e)] or norm(o) == "TypeError" or norm(o).startswith("!Other")):
+                continue  # operator support of the pair is the function matrix's business (C17/C02)
+            ctx.violation(f"promote/{d},numpy-{e}/{form}/{via}",
+                          f"{via}(array {d}, {form} of {e}){' reflected' if first else ''} -> {o}, expected {m} (= result_type({d}, {e}))",
+                          {"dtype": d, "numpy_dtype": e, "form": form, "scalar_first": first, "via": via, "observed": o, "expected": m})
 
     # ---------------- generated Lean table + laws -----------------------------------------
     prow = ", ".join(f"({IDX[a]}, {IDX[b]}, {enc(o)})" for (a, b), o in zip(pairs, pair_out))
